@@ -234,6 +234,24 @@ def run(rep: Report) -> None:
             elif isinstance(node, ast.Call) and ast.unparse(node.func) in ("importlib.import_module", "import_module", "__import__") and node.args \
                     and isinstance(node.args[0], ast.Constant):
                 mods = [str(node.args[0].value)]
+            elif isinstance(node, ast.Call) and ast.unparse(node.func) in ("importlib.import_module", "import_module", "__import__") and node.args:
+                # the module is looked up in a table (`cls._declared_in[symbol]`): every value of that table may be imported
+                a0 = node.args[0]
+                tab = a0.value if isinstance(a0, ast.Subscript) else (a0.func.value if isinstance(a0, ast.Call) and isinstance(a0.func, ast.Attribute)
+                                                                        and a0.func.attr == "get" else None)
+                tname = tab.attr if isinstance(tab, ast.Attribute) else (tab.id if isinstance(tab, ast.Name) else None)
+                lit = None
+                for owner in ([prog.classes[fi.cls].node] if fi.cls and fi.cls in prog.classes else []) + [prog.modules[fi.module].tree]:
+                    for st in owner.body:
+                        tg = st.targets[0] if isinstance(st, ast.Assign) and len(st.targets) == 1 else (st.target if isinstance(st, ast.AnnAssign) else None)
+                        if isinstance(tg, ast.Name) and tg.id == tname and isinstance(getattr(st, "value", None), ast.Dict):
+                            lit = st.value
+                    if lit is not None:
+                        break
+                if lit is None or not all(isinstance(v, ast.Constant) and isinstance(v.value, str) for v in lit.values):
+                    rep.defer(AnalysisError(f"{f}: `{ast.unparse(node)[:60]}` imports a module chosen at run time on the parse path; the candidates cannot be read"))
+                else:
+                    mods = sorted({v.value for v in lit.values})  # type: ignore[union-attr]
             for m in mods:
                 short = m.replace("measured.", "").lstrip(".")
                 if short in prog.modules and short not in ("", "_parser", "parsing", "formatting", "compat", "conversions") and not short.startswith("_"):
